@@ -31,12 +31,12 @@ JOBS = [
     dict(job=('specs.tr_small', 'misc_recorder', {}), props=['C04', 'C09', 'C02']),
     # ---- playback/interception/files
     dict(job=('specs.files', 'get_file_path', {}), props=['C20']),
-    dict(job=('specs.files', 'intercept_file', {}), props=['C20']),
+    dict(job=('specs.files', 'intercept_file', {}), props=['C20', 'C03']),
     dict(job=('specs.files', 'roundtrip', {}), props=['C20']),
     dict(job=('specs.files', 'restore_input', {}), props=['C20']),
     dict(job=('specs.files', 'restore_output', {}), props=['C20']),
-    dict(job=('specs.files', 'prepare_handlers', {}), props=['C20']),
-    dict(job=('specs.files', 'size_limit', {}), props=['C20']),
+    dict(job=('specs.files', 'prepare_handlers', {}), props=['C20', 'C03']),
+    dict(job=('specs.files', 'size_limit', {}), props=['C20', 'C03']),
     dict(job=('specs.files', 'holder_to_file', {}), props=['C20']),
     # ---- asynchronous cassette (monitor invariant)
     dict(job=('specs.async_cas', 'producer', {}), props=['C12', 'C05', 'C01']),
@@ -82,7 +82,7 @@ JOBS = [
     dict(job=('specs.s3', 's3_iter_recording_ids', {}), props=['C10', 'C16', 'C15']),
     # ---- studio
     dict(job=('specs.studio', 'grouping', {}), props=['C19']),
-    dict(job=('specs.studio', 'play_category', {}), props=['C19', 'C10']),
+    dict(job=('specs.studio', 'play_category', {}), props=['C19', 'C10', 'C08']),
     dict(job=('specs.studio', 'play', {'mode': 'explicit'}), props=['C19']),
     dict(job=('specs.studio', 'play', {'mode': 'lookup'}), props=['C19']),
     dict(job=('specs.studio', 'find_matching', {}), props=['C19', 'C10', 'C18']),
